@@ -89,14 +89,14 @@ def run(ctx):
     from .. import trees as TR
 
     T = ctx.tier == "thorough"
-    fams = ("Node", "NM", "LM", "AnyNode")
+    fams = TR.READ_FAMILIES
     idx = 0
     nfull = 6 if T else 5
     for n in range(1, nfull + 1):
         allsets = list(gen.subsets(n))
         for par in gen.ordered_trees(n):
             ch = gen.children_of(par)
-            fam = fams[sum(x or 0 for x in par) % 4]
+            fam = fams[sum(x or 0 for x in par) % len(fams)]
             nodes = None
             for s in range(n):
                 tr = None
@@ -125,7 +125,7 @@ def run(ctx):
         n = rng.randint(6, 30)
         par, kind = gen.random_tree(rng, n)
         ch = gen.children_of(par)
-        fam = fams[r % 4]
+        fam = fams[r % len(fams)]
         nodes = TR.build(par, fam)
         idmap = {id(o): i for i, o in enumerate(nodes)}
         for _ in range(12):
